@@ -84,4 +84,130 @@ def resolveUnparsed (docs : Nat → Ptr → Option (List Ref)) (nDocs : Nat) : N
     | none => .keyError
     | some (st', changed) => if changed then resolveUnparsed docs nDocs fuel st' else .done st'
 
+/-!
+### Relative-file references under `current_base_path_context` (documents in a TREE of directories)
+
+`ModelResolver.resolve_ref(ref)` for `ref = file#pointer` (not a URL, not starting with `#`), while a base path is
+current:
+
+    file_path, *object_part = joined_path.split("#", 1)
+    resolved_file_path = Path(self.current_base_path, file_path).resolve()
+    joined_path = get_relative_path(self._base_path, resolved_file_path).as_posix()  (+ "#" + object_part)
+
+A directory is the list of its segments below the resolver's `_base_path`. `current_base_path_context(p)` sets the
+current directory to `p` — given relative to `_base_path`, NOT to the directory that was current — and restores the
+previous one on exit. The same reference string therefore names a different file in every directory, and the answer
+is a function of (current directory, reference): nothing else of the resolver's history enters.
+-/
+
+abbrev Seg := List Char
+abbrev Dir := List Seg
+
+def dotdot : Seg := ['.', '.']
+
+/-- one path segment pushed on the (reversed) normalised prefix: empty and `.` segments vanish, `..` pops;
+`none` = the path leaves the base directory -/
+def normPush : Option (List Seg) → Seg → Option (List Seg)
+  | none, _ => none
+  | some acc, s =>
+    if s = [] ∨ s = ['.'] then some acc
+    else if s = dotdot then (match acc with | [] => none | _ :: rest => some rest)
+    else some (s :: acc)
+
+/-- `Path(cur, file).resolve()` relative to the base path -/
+def resolveFile (cur : Dir) (file : List Seg) : Option Dir :=
+  ((cur ++ file).foldl normPush (some [])).map List.reverse
+
+def splitOn (c : Char) : List Char → List (List Char)
+  | [] => [[]]
+  | x :: xs =>
+    match splitOn c xs with
+    | [] => [[]]
+    | h :: t => if x = c then [] :: h :: t else (x :: h) :: t
+
+def joinSegs : List Seg → List Char
+  | [] => []
+  | [s] => s
+  | s :: ss => s ++ '/' :: joinSegs ss
+
+/-- `str.split("#", 1)`: (before the first `#`, the rest after it if there is a `#`) -/
+def splitHash1 : List Char → List Char × Option (List Char)
+  | [] => ([], none)
+  | x :: xs => if x = '#' then ([], some xs) else let r := splitHash1 xs; (x :: r.1, r.2)
+
+inductive CRes where
+  | ok (path : List Char)
+  /-- the file is not below `_base_path` (answer starts with `..`): outside the model -/
+  | outside
+  /-- `#…` (resolved against `current_root`), URLs, no current base path: outside this model -/
+  | unmodelled
+  /-- `joined_path[0]` on the empty string -/
+  | raised
+  deriving DecidableEq, Repr
+
+def isUrl (r : List Char) : Bool := "http://".toList.isPrefixOf r || "https://".toList.isPrefixOf r
+
+/-- `resolve_ref(r)` with current directory `cur` -/
+def resolveIn (cur : Dir) (r : List Char) : CRes :=
+  match r with
+  | [] => .raised
+  | c :: _ =>
+    if c = '#' ∨ isUrl r = true then .unmodelled
+    else
+      let fo := splitHash1 r
+      match resolveFile cur (splitOn '/' fo.1) with
+      | none => .outside
+      | some segs =>
+        let file := if segs = [] then ['.'] else joinSegs segs      -- `Path().as_posix()` is `.`
+        .ok (file ++ '#' :: fo.2.getD [])
+
+inductive COp where
+  /-- `with current_base_path_context(p):` — `none`: the argument `None` -/
+  | enter (p : Option (List Char))
+  /-- leaving the innermost context -/
+  | exit
+  | resolve (r : List Char)
+  deriving DecidableEq, Repr
+
+def COp.isResolve : COp → Bool
+  | .resolve _ => true
+  | _ => false
+
+structure CState where
+  /-- `current_base_path` relative to `_base_path`; `none`: no base path (or one outside `_base_path`) -/
+  cur : Option Dir
+  /-- `previous_value` of the enclosing `context_variable` frames, innermost first -/
+  saved : List (Option Dir)
+  deriving DecidableEq, Repr
+
+def CState.init : CState := ⟨some [], []⟩
+
+def cstep (s : CState) : COp → CState × CRes
+  | .enter p =>
+    -- `(self._base_path / base_path).resolve()` — relative to the base path whatever is current
+    ({ cur := p.bind (fun p => resolveFile [] (splitOn '/' p)), saved := s.cur :: s.saved }, .unmodelled)
+  | .exit =>
+    (match s.saved with
+      | [] => s
+      | prev :: rest => { cur := prev, saved := rest }, .unmodelled)
+  | .resolve r =>
+    (s, match s.cur with
+      | none => .unmodelled
+      | some cur => resolveIn cur r)
+
+def crun (s : CState) : List COp → CState
+  | [] => s
+  | op :: ops => crun (cstep s op).1 ops
+
+/-- state and answer after every operation (what the correspondence campaign compares) -/
+def ctrace (s : CState) : List COp → List (CState × CRes)
+  | [] => []
+  | op :: ops => let r := cstep s op; r :: ctrace r.1 ops
+
+/-- the answer of `resolve_ref(r)` after the history `ops` -/
+def answerAfter (s : CState) (ops : List COp) (r : List Char) : CRes := (cstep (crun s ops) (.resolve r)).2
+
+/-- a plain segment: a file or directory name -/
+def plainSeg (s : Seg) : Bool := !(s == []) && !(s == ['.']) && !(s == dotdot)
+
 end Dcg.Model.ResolverMultidoc
